@@ -130,12 +130,24 @@ func RunBinaryCase(seed int64, bin, workDir string, forced bool) *HistResult {
 	}
 	tSig := time.Now()
 	_ = cmd.Process.Signal(sig)
+	lostProbe := false
 	if !forced && seed%2 == 0 {
 		// an impatient operator repeats the interrupt while the graceful shutdown is waiting for the running job (the
 		// shutdown has begun when schedule requests are refused with 503): it stays a graceful shutdown
 		for i := 0; i < 200; i++ {
-			if code, _ := do("POST", "/pipelines/schedule", map[string]any{"pipeline": "chain"}); code == 503 || code == 0 {
+			code, body := do("POST", "/pipelines/schedule", map[string]any{"pipeline": "chain"})
+			if code == 0 {
+				// no answer: the request may or may not have been accepted before the server went away
+				lostProbe = true
+			}
+			if code == 503 || code == 0 {
 				break
+			}
+			if code == 202 {
+				// the signal had not reached the runner yet: the probe is one more accepted job
+				var r struct{ JobID string }
+				_ = json.Unmarshal(body, &r)
+				ids = append(ids, r.JobID)
 			}
 			time.Sleep(5 * time.Millisecond)
 		}
@@ -164,8 +176,8 @@ func RunBinaryCase(seed int64, bin, workDir string, forced bool) *HistResult {
 	for _, j := range data.Jobs {
 		byID[j.ID.String()] = j
 	}
-	if len(byID) != 3 {
-		find("C11:store-differs-from-final-state", "3 jobs were accepted over HTTP, the store holds %d after exit", len(byID))
+	if len(byID) != len(ids) && !(lostProbe && len(byID) == len(ids)+1) {
+		find("C11:store-differs-from-final-state", "%d jobs were accepted over HTTP, the store holds %d after exit", len(ids), len(byID))
 	}
 	for i, id := range ids {
 		j, ok := byID[id]
